@@ -172,6 +172,27 @@ def check(rep, ctx):
                               f"condition of its record count alone, which holds for the well-formed count {hit}: a batch with {hit} record(s) "
                               f"(what a broker serves after compaction removed every record, for 0) cannot be read",
                       file=file, line=fn.node.lineno)
+        # acceptance, after the integrity checks: once magic and CRC have passed, read_batch itself (or the RecordBatch constructor) has no
+        # ground to reject a batch -- the v2 format puts no further constraint on the header fields (compaction leaves lastOffsetDelta and
+        # the base offset as they were and removes records)
+        crc_t = cn0.term(crc_facts[0][0]) if len(crc_facts) == 1 else None
+        for q in B["paths"]:
+            if q.outcome != "raise" or crc_t is None:
+                continue
+            cq, fq = canon_facts(q)
+            if not any(f_[0] == crc_t and f_[1] for f_ in fq):
+                continue
+            site_ = str(q.value.attrs.get("__site__", ""))
+            if not site_.startswith(("kio.records.readers:read_batch", "kio.records.schema")):
+                continue
+            t_ = fq[-1][0] if fq else None
+            if t_ is not None and count_only(t_) is not None and contains(count_only(t_), ("X",)):
+                continue  # the count-only rule above reports it
+            rep.check(R_A, False, construct=fn.ref, stmt=stmt_at(ctx, site_) or site_,
+                      message=f"a batch whose magic and checksum are right is rejected ({getattr(q.value.cls, 'name', None) or q.value.cls.ref} at "
+                              f"{site_}) on {show_term(t_)[:160] if t_ is not None else '?'}: the format does not constrain the header this way "
+                              f"(a compacted batch keeps its base offset and lastOffsetDelta while records are removed)", file=file,
+                      line=fn.node.lineno, instance=f"post-crc|{site_}")
         # acceptance, record loop: the format relates a record to the batch header through base offset / base timestamp only.  A raise
         # decided by comparing a record with maxTimestamp is justified only for CreateTime batches (attributes bit 3 clear), where
         # maxTimestamp is by definition the largest record timestamp; under LogAppendTime it is the broker's clock.
